@@ -8,7 +8,7 @@ V = os.path.dirname(os.path.dirname(os.path.abspath(__file__)))
 ROUND5 = {
  'C01': 'the backslash case replaces the noesc tag on every way through it (R01.9); encoder siblings compared with private helpers expanded (R01.3).',
  'C03': 'events emitted through helpers count at the caller (R03.5); a reused CBOR cursor forgets pending tags (R07.cbor.tags reset clause).',
- 'C04': 'integer events match the signedness parsed into and the sign dispatch (R04.3); constructor initialisers copy each option into the member named after it (R04.8).',
+ 'C04': 'integer events match the signedness parsed into and the sign dispatch (R04.3); constructor initialisers copy each option into the member named after it (R04.8); every from_chars based decstr_to_double assigns the value on out-of-range (R04.9; the shipped from_chars configuration is the one analysed).',
  'C05': 'growing index into a fixed local array (R05.15), indexed reads of a view parameter (R05.16), borrowed bounds between member containers (R05.17).',
  'C06': 'MessagePack timestamp sign mirror between encoder and decoder (R06.msgpack); item bookkeeping of the visitor adaptors (R07.adaptor).',
  'C07': 'CBOR reset clears pending tags (R07.cbor.tags); visitor adaptors count every item (R07.adaptor); BSON closers found by what they report.',
